@@ -96,8 +96,18 @@ fn payload_set_with(rng: &mut Rng, format: TileFormat, c: Comp, huge: bool) -> T
 		let p = if i == 0 { vec![r[0]] } else if (6..9).contains(&i) { r.clone() } else { p };
 		tiles.insert((z, x, y), comp::compress(&p, c));
 	}
-	// a second level with one tile
-	tiles.insert((z - 1, x0 / 2, y0 / 2), comp::compress(b"T:lower level", c));
+	// a second level with one tile — stored as a gzip file of two members where the source is gzip
+	let lower = b"T:lower level; the second half of this tile lives in a second gzip member";
+	tiles.insert((z - 1, x0 / 2, y0 / 2), if c == Comp::Gzip { comp::gzip_two_members(lower, 13) } else { comp::compress(lower, c) });
+	// a level of tiles that alternate between three bodies (ocean / land / empty-style tiles recur all over a real
+	// tile set): a converter working on several tiles at once must keep every result with its own tile
+	let bodies: Vec<Vec<u8>> = (0..3u8).map(|b| (0..16_000u32).map(|i| (i as u8).wrapping_mul(b + 3) ^ (i >> 8) as u8 ^ b).collect()).collect();
+	for dy in 0..6u32 {
+		for dx in 0..8u32 {
+			let body = &bodies[((dx + 3 * dy + (dx * dy) % 2) % 3) as usize];
+			tiles.insert((z + 1, 2 * x0 + dx, 2 * y0 + dy), comp::compress(body, c));
+		}
+	}
 	// a tile whose decoded payload is empty (e.g. an empty vector tile); only representable when the
 	// stored form is non-empty, i.e. for compressed sources
 	if c != Comp::None {
